@@ -47,6 +47,8 @@ type state struct {
 	nftNames []string        // current workload interface names
 	nftSeen  map[string]bool // every name ever configured in this history
 	nftEps   map[string]bool // endpoint chains currently programmed
+
+	epm *epmState // endpoint-manager mode (epm.go)
 }
 
 func encName(s string) string { return "x" + hex.EncodeToString([]byte(s)) }
@@ -433,6 +435,9 @@ func exec(h *rt.H, s *state, op string) string {
 	if strings.HasPrefix(w[0], "nft-") {
 		return s.nftExec(h, w)
 	}
+	if strings.HasPrefix(w[0], "epm-") {
+		return s.epmExec(h, op)
+	}
 	switch w[0] {
 	case "wl":
 		s.kind, s.nft, s.names = "wl", w[1] == "nft", decNames(w[3])
@@ -620,6 +625,9 @@ func genNftHistory(h *rt.H) []string {
 func genCase(h *rt.H) []string {
 	if h.Chance(0.2) {
 		return genNftHistory(h)
+	}
+	if h.Chance(0.25) {
+		return genEpmHistory(h)
 	}
 	var ops []string
 	dp := rt.Pick(h, []string{"ipt", "ipt", "nft"})
